@@ -359,4 +359,38 @@ theorem pruneRecent_images (L : Log) (d : Dir) (i0 a n : Nat) (I : Inv L d i0 a)
       rw [hmeq] at R2 hl2
       exact ⟨_, _, R2, by rw [hl2, hl1]⟩
 
+/-! ## the empty live range -/
+
+/-- `open(0, 0)`: nothing is scanned, every segment file is unlinked (oldest first), no record is returned — for any
+directory with contiguous non-zero segment ids, whatever the files hold -/
+theorem open_empty (maxSeg i0 : Nat) (d : Dir) (hi : 0 < i0) (hseg : SegIdsFrom i0 d) :
+    openM maxSeg 0 0 d = ⟨[], d.map (fun x => FsEff.unlink x.1), .ok (⟨maxSeg, 0, 0, [], none⟩, [])⟩ := by
+  have hsort : sortById d = d := sortById_of_from d i0 hseg
+  have hchk : checkIds none (d.map (·.1)) = .ok () := checkIds_from d i0 none hi hseg (Or.inl rfl)
+  have heffs : (d.map (fun c => (⟨c.1, 0, 0⟩ : SegMeta))).map (fun m => FsEff.unlink m.id) = d.map (fun x => FsEff.unlink x.1) := by
+    simp [Function.comp_def]
+  have hdir : applyEffs d (d.map (fun x => FsEff.unlink x.1)) = [] := by
+    have := unlink_front i0 d [] (by simpa using hseg)
+    simpa using this
+  have hrange : ¬ ((0 = 0) ≠ (0 = 0)) := by simp
+  unfold openM openWith
+  rw [if_neg hrange]
+  simp only [hsort, hchk, if_true, splitLive, heffs, hdir]
+  simp
+
+/-- every prefix of that clean-up leaves a directory on which `open(0, 0)` succeeds again -/
+theorem open_empty_images (maxSeg i0 : Nat) (d : Dir) (hi : 0 < i0) (hseg : SegIdsFrom i0 d) (k : Nat) :
+    (openM maxSeg 0 0 (applyEffs d ((openM maxSeg 0 0 d).effs.take k))).out = .ok (⟨maxSeg, 0, 0, [], none⟩, []) := by
+  rw [open_empty maxSeg i0 d hi hseg]
+  simp only
+  have htake : (d.map (fun x => FsEff.unlink x.1)).take k = (d.take k).map (fun x => FsEff.unlink x.1) := by
+    rw [List.map_take]
+  have hd2 : d = d.take k ++ d.drop k := (List.take_append_drop k d).symm
+  have himg : applyEffs d ((d.take k).map (fun x => FsEff.unlink x.1)) = d.drop k := by
+    conv => lhs; arg 1; rw [hd2]
+    exact unlink_front i0 _ _ (hd2 ▸ hseg)
+  rw [htake, himg]
+  have hseg2 : SegIdsFrom (i0 + (d.take k).length) (d.drop k) := ((segIdsFrom_append _ _ i0).mp (hd2 ▸ hseg)).2
+  rw [open_empty maxSeg _ (d.drop k) (by omega) hseg2]
+
 end Nomt.Seg
